@@ -206,6 +206,12 @@ func genScalarsCase(t *rapid.T) ScalarsCase {
 	c.Flag = rapid.Bool().Draw(t, "flag")
 	if rapid.Bool().Draw(t, "hasMulti") {
 		c.Multi = genMultiLineText(t, "multi")
+		if c.Multi != "" && rapid.IntRange(0, 7).Draw(t, "leadingEmpty") == 0 {
+			// a text that starts with one or two empty lines: the member is tagged multiline, so nothing
+			// stands behind the colon anyway and the empty lines are ' .' lines like any other (in an
+			// untagged member a leading newline IS the layout convention - F14 - and is not generated)
+			c.Multi = strings.Repeat("\n", rapid.IntRange(1, 2).Draw(t, "leadingEmptyN")) + c.Multi
+		}
 	}
 	if rapid.Bool().Draw(t, "hasText") {
 		c.Text = genMultiLineText(t, "text")
@@ -252,7 +258,7 @@ func dropFieldLines(text, field string) string {
 
 var specC09Scalars = Register(&Spec[ScalarsCase]{
 	Prop: "C09", Name: "scalars",
-	Rule: "values of a probe struct with string, int (full range), uint (full range incl. > MaxInt64), bool, renamed (control:\"X-Renamed\"), required (one possibly empty, one always empty), skipped (control:\"-\", on a string member and on a struct-kind member whose own members are named like document fields), unexported members (string, version.Version, sync.Mutex: neither written nor read), multiline:\"true\" and plain multi-line string fields; strings are single lines without surrounding blanks, multi-line texts are C08 line sequences. Oracle: Unmarshal(Marshal(x)) == x field by field (multi-line strings up to one trailing newline, skipped field stays zero); in the emitted paragraph optional fields with empty rendering are absent, required ones present; removing a required field's lines makes Unmarshal fail; members of an anonymously embedded plain struct (required, optional, renamed) are written and read like the struct's own, also next to an embedded Paragraph; a Paragraph embedded one level down (or under an alias name) still carries the unknown fields through; folded (multiline:\"true\") lists, ints, bools and members of custom type (version, architecture - seven names, wildcards among them -, relationship field) without a strip tag, through Marshal/Unmarshal and through ConvertToParagraph/UnpackFromParagraph; a []*T written and read; three values (full, required-only, partial) marshalled as one slice read back as three values none of which carries a neighbour's fields. Non-trivial: >= 3 non-zero fields; distinct by value.",
+	Rule: "values of a probe struct with string, int (full range), uint (full range incl. > MaxInt64), bool, renamed (control:\"X-Renamed\"), required (one possibly empty, one always empty), skipped (control:\"-\", on a string member and on a struct-kind member whose own members are named like document fields), unexported members (string, version.Version, sync.Mutex: neither written nor read), multiline:\"true\" and plain multi-line string fields; strings are single lines without surrounding blanks, multi-line texts are C08 line sequences, one in eight of those in a multiline-tagged member starting with one or two empty lines. Oracle: Unmarshal(Marshal(x)) == x field by field (multi-line strings up to one trailing newline, skipped field stays zero); in the emitted paragraph optional fields with empty rendering are absent, required ones present; removing a required field's lines makes Unmarshal fail; members of an anonymously embedded plain struct (required, optional, renamed) are written and read like the struct's own, also next to an embedded Paragraph; a Paragraph embedded one level down (or under an alias name) still carries the unknown fields through; folded (multiline:\"true\") lists, ints, bools and members of custom type (version, architecture - seven names, wildcards among them -, relationship field) without a strip tag, through Marshal/Unmarshal and through ConvertToParagraph/UnpackFromParagraph; a []*T written and read; three values (full, required-only, partial) marshalled as one slice read back as three values none of which carries a neighbour's fields. Non-trivial: >= 3 non-zero fields; distinct by value.",
 	Check: func(c ScalarsCase, r *Recorder) error {
 		nz := 0
 		for _, s := range []string{c.Str, c.Renamed, c.Req, c.Multi, c.Text} {
